@@ -33,7 +33,7 @@ import traceback
 from .tape import Tape, derive_seed
 
 VERIF = os.path.dirname(os.path.dirname(os.path.abspath(__file__)))
-DEFAULT_SEED = 20260921
+DEFAULT_SEED = 1          # what `vp check` exports as VERIF_SEED
 
 
 from .fs import StubGap
